@@ -116,6 +116,19 @@ fn time_lit(rng: &mut Rng) -> TimeLit {
                 };
             }
             _ => {
+                // fractional milliseconds (a float literal with the ms suffix)
+                if rng.chance(0.15) {
+                    let v = *[0.5f32, 1.5, 2.5, 12.5, 62.5, 0.25, 187.5].get(rng.usize_below(7)).unwrap();
+                    let a = v * 0.001f32;
+                    let b = v / 1000.0f32;
+                    if a.to_bits() == b.to_bits() {
+                        return TimeLit {
+                            text: format!("{v:?}ms"),
+                            seconds: b,
+                        };
+                    }
+                    continue;
+                }
                 // milliseconds; only values for which both readings of the documentation agree
                 // bit-for-bit (N * 0.001 == N / 1000 in f32)
                 let n = *[50i64, 100, 125, 250, 375, 500, 750, 1000, 1250, 1500, 2000, 2500, 3000]
